@@ -314,3 +314,441 @@ Lemma encode_empty_iff cmd text : encode_ctcp_raw cmd text = [] <-> cmd = [].
 Proof.
   unfold encode_ctcp_raw. destruct cmd; [intuition|]. split; discriminate.
 Qed.
+
+(* ---- the causes of "not CTCP" ------------------------------------------ *)
+
+Lemma split_unique (c : N) a a' r r' :
+  ~ In c a -> ~ In c a' -> a ++ c :: r = a' ++ c :: r' -> a = a'.
+Proof.
+  intros Ha Ha' H.
+  assert (Hl : length a = length a').
+  { pose proof (index_byte_app c a r Ha) as H1. rewrite H in H1.
+    rewrite (index_byte_app c a' r' Ha') in H1. congruence. }
+  apply (f_equal (firstn (length a))) in H. rewrite firstn_app_len in H.
+  rewrite Hl, firstn_app_len in H. exact H.
+Qed.
+
+Lemma decode_inner_none src reply mid : decode_inner src reply mid = Ok None ->
+  (exists r, mid = 32 :: r) \/
+  (exists tag b, ~ In 32 tag /\ In b tag /\ ~ tag_byte b /\ (mid = tag \/ exists r, mid = tag ++ 32 :: r)).
+Proof.
+  unfold decode_inner, event_space.
+  destruct (index_byte 32 mid) as [s|] eqn:Hi.
+  - destruct (index_byte_some _ _ _ Hi) as (a & r & -> & Hn & <-).
+    destruct (Nat.eqb (length a) 0) eqn:Hz.
+    { apply Nat.eqb_eq in Hz. destruct a; [|discriminate Hz]. intros _. left. exists r. reflexivity. }
+    rewrite firstn_app_len.
+    destruct (forallb tag_byte_ok a) eqn:Ht; cbn [negb].
+    + rewrite slice_head, slice_tail. cbn [rbind]. discriminate.
+    + intros _. right. apply forallb_tag_false in Ht. destruct Ht as (b & Hb & Hbad).
+      exists a, b. eauto 6.
+  - destruct (forallb tag_byte_ok mid) eqn:Ht; [discriminate|].
+    intros _. right. apply forallb_tag_false in Ht. destruct Ht as (b & Hb & Hbad).
+    exists mid, b. apply index_byte_none in Hi. auto 6.
+Qed.
+
+Lemma last_snoc {A} (l : list A) x d : last (l ++ [x]) d = x.
+Proof. induction l as [|y l IH]; [reflexivity|]. cbn [app last]. destruct (l ++ [x]) eqn:E; [destruct l; discriminate | exact IH]. Qed.
+
+Lemma tag_head_not_space cmd r rest : ctcp_tag cmd -> cmd ++ r <> 32 :: rest.
+Proof.
+  intros (Hne & Ht) H. destruct cmd as [|b cmd]; [congruence|].
+  injection H as -> _. inversion Ht as [|? ? Hb _]. exact (tag_not_space Hb).
+Qed.
+
+Theorem not_ctcp_exact e : not_ctcp_cause e <-> decode_ctcp e = Ok None.
+Proof.
+  rewrite decode_none_iff. split.
+  - intros Hc (c & Hk & (t & p & Hp & Hpay) & _ & _).
+    apply payload_inner in Hpay. destruct Hpay as (mid & -> & Hsh).
+    pose proof (inner_shape_nonempty _ _ _ Hsh) as Hm.
+    destruct Hc as [Hl | Hnk | t' p' Hp' Hs | t' p' Hp' Hf | t' p' Hp' Hla | t' r Hp' | t' tag r b Hp' Hns Hb Hbad].
+    + rewrite Hp in Hl. apply Hl. reflexivity.
+    + exact (Hnk Hk).
+    + rewrite Hp in Hp'. injection Hp' as _ <-. cbn [length] in Hs. rewrite app_length in Hs.
+      cbn [length] in Hs. destruct mid; [congruence | cbn [length] in Hs; lia].
+    + rewrite Hp in Hp'. injection Hp' as _ <-. apply Hf. reflexivity.
+    + rewrite Hp in Hp'. injection Hp' as _ <-. apply Hla.
+      change (1 :: mid ++ [1]) with ((1 :: mid) ++ [1]). apply last_snoc.
+    + rewrite Hp in Hp'. injection Hp' as _ Hx.
+      destruct Hsh as (Ht & [(-> & _) | ->]).
+      * exact (tag_head_not_space _ _ _ Ht Hx).
+      * rewrite <- app_assoc in Hx. exact (tag_head_not_space _ _ _ Ht Hx).
+    + destruct Hsh as ((Hne & Ht) & Hsh).
+      pose proof (tag_no_space _ Ht) as Hcs.
+      assert (Hin : forall x, In x (c_command c) -> tag_byte x) by (apply Forall_forall; exact Ht).
+      rewrite Hp in Hp'. cbn [app] in Hp'.
+      destruct Hp' as [Hp' | Hp']; injection Hp' as _ Hx.
+      * apply app_inj_tail in Hx. destruct Hx as (Hx & _).
+        destruct Hsh as [(-> & _) | ->].
+        -- subst tag. exact (Hbad (Hin _ Hb)).
+        -- subst tag. apply Hns. apply in_or_app. right. left. reflexivity.
+      * replace (tag ++ 32 :: r ++ [1]) with ((tag ++ 32 :: r) ++ [1]) in Hx
+          by (rewrite <- app_assoc; reflexivity).
+        apply app_inj_tail in Hx. destruct Hx as (Hx & _).
+        destruct Hsh as [(-> & _) | ->].
+        -- apply Hcs. rewrite Hx. apply in_or_app. right. left. reflexivity.
+        -- apply split_unique in Hx; [|assumption|assumption]. subst tag. exact (Hbad (Hin _ Hb)).
+  - intros Hn.
+    assert (Hd : decode_ctcp e = Ok None) by (apply decode_none_iff; exact Hn). clear Hn.
+    destruct (Nat.eq_dec (length (ev_params e)) 2) as [H2 | H2]; [|apply nc_params; exact H2].
+    destruct e as [src k ps]. cbn [ev_params] in H2.
+    destruct ps as [|t [|p [|x l]]]; try discriminate H2.
+    destruct (Nat.lt_ge_cases (length p) 3) as [Hs | Hs]; [eapply nc_short; [reflexivity | exact Hs]|].
+    destruct (ends_split p Hs) as (c0 & mid & cl & -> & Hm).
+    rewrite decode_two in Hd by exact Hm.
+    destruct (negb (streqb k PRIVMSG) && negb (streqb k NOTICE)) eqn:Hk.
+    { apply nc_command. cbn [ev_command]. rewrite <- msg_kind_b. congruence. }
+    destruct (N.eq_dec c0 1) as [-> | H0]; [|eapply nc_first; [reflexivity | exact H0]].
+    destruct (N.eq_dec cl 1) as [-> | H1].
+    2:{ eapply nc_last; [reflexivity|]. change (1 :: mid ++ [cl]) with ((1 :: mid) ++ [cl]).
+        rewrite last_snoc. exact H1. }
+    cbn in Hd. destruct (decode_inner_none _ _ _ Hd) as [(r & ->) | (tag & b & Hns & Hb & Hbad & Hmid)].
+    + eapply nc_empty_tag. cbn [ev_params app]. reflexivity.
+    + destruct Hmid as [-> | (r & ->)].
+      * apply (nc_bad_tag _ t tag [] b); try assumption. left. reflexivity.
+      * apply (nc_bad_tag _ t tag r b); try assumption. right. cbn [ev_params app].
+        rewrite <- app_assoc. reflexivity.
+Qed.
+
+(* ---- the default table -------------------------------------------------- *)
+
+Definition default_reply (v : env) (c : ctcp_event) : res (list event) :=
+  if c_reply c then Ok [] else
+  match c_source c with
+  | None => Ok []
+  | Some name =>
+      Ok [notice (to_rfc1459 name)
+            (encode_ctcp_raw (c_command c) (answer_text v (c_command c) (c_text c)))]
+  end.
+
+Lemma send_reply_ok target k msg : k <> [] ->
+  send_ctcp_reply target k msg = Ok (notice target (encode_ctcp_raw k msg)).
+Proof.
+  intros Hk. unfold send_ctcp_reply.
+  destruct (encode_ctcp_raw k msg) eqn:E; [|reflexivity].
+  apply encode_empty_iff in E. congruence.
+Qed.
+
+Lemma lookup_wildcard_default v : lookup ctcp_wildcard (default_table v) = None.
+Proof. reflexivity. Qed.
+
+(* handleCTCPFinger dereferences client.conn: the one way the default table can panic *)
+Definition finger_crash (v : env) (c : ctcp_event) : bool :=
+  negb (connected v) && streqb (c_command c) CTCP_FINGER && negb (c_reply c) &&
+  match c_source c with Some _ => true | None => false end.
+
+Lemma lookup_default_known_gen v c : known_query (c_command c) ->
+  exists h, lookup (c_command c) (default_table v) = Some h /\
+            h c = if finger_crash v c then Panic else default_reply v c.
+Proof.
+  intros Hk. destruct c as [src cmd text reply]. cbn [c_command] in *.
+  unfold known_query in Hk. cbn [In] in Hk.
+  destruct Hk as [<- | [<- | [<- | [<- | [<- | [<- | []]]]]]];
+    (eexists; split; [reflexivity|]);
+    unfold finger_crash, default_reply, handle_ping, handle_pong, handle_version, handle_source,
+      handle_time, handle_finger, replier, source_id;
+    cbn [c_reply c_source c_command c_text];
+    rewrite ?andb_false_r; cbn [andb];
+    destruct reply; rewrite ?andb_false_r; try reflexivity;
+    destruct src as [name|]; rewrite ?andb_false_r; try reflexivity.
+  - destruct (cfg_version v) eqn:Ev; unfold answer_text; cbn; rewrite Ev; reflexivity.
+  - destruct (connected v); reflexivity.
+Qed.
+
+Lemma lookup_default_known v c : connected v = true -> known_query (c_command c) ->
+  exists h, lookup (c_command c) (default_table v) = Some h /\ h c = default_reply v c.
+Proof.
+  intros Hconn Hk. destruct (lookup_default_known_gen v c Hk) as (h & Hl & Hh).
+  exists h. split; [exact Hl|]. rewrite Hh. unfold finger_crash. rewrite Hconn. reflexivity.
+Qed.
+
+Lemma lookup_default_unknown v k : ~ known_query k -> lookup k (default_table v) = None.
+Proof.
+  intros Hk. unfold default_table. cbn [lookup].
+  repeat match goal with
+  | |- context [streqb ?a k] =>
+      let E := fresh "E" in
+      destruct (streqb a k) eqn:E;
+      [apply streqb_spec in E; exfalso; apply Hk; rewrite <- E; unfold known_query; cbn [In]; tauto|]
+  end.
+  reflexivity.
+Qed.
+
+Lemma known_query_dec k : {known_query k} + {~ known_query k}.
+Proof. apply in_dec. apply list_eq_dec. apply N.eq_dec. Qed.
+
+Lemma action_unknown : ~ known_query CTCP_ACTION.
+Proof. unfold known_query. cbn [In]. intros [H | [H | [H | [H | [H | [H | []]]]]]]; discriminate H. Qed.
+
+(* CTCP.call with the default table, as a function of the decoded event *)
+Definition call_spec (v : env) (c : ctcp_event) : res (list event) :=
+  if known_query_dec (c_command c) then default_reply v c else
+  if streqb (c_command c) CTCP_ACTION then Ok [] else
+  match c_source c with
+  | Some name =>
+      if negb (c_reply c) && is_valid_nick (to_rfc1459 name)
+      then Ok [notice (to_rfc1459 name) (encode_ctcp_raw CTCP_ERRMSG errmsg_text)]
+      else Ok []
+  | None => Ok []
+  end.
+
+Lemma ctcp_call_default v c : connected v = true ->
+  ctcp_call (default_table v) c = call_spec v c.
+Proof.
+  intros Hconn. unfold ctcp_call, call_spec. rewrite lookup_wildcard_default. cbn [rbind].
+  destruct (known_query_dec (c_command c)) as [Hk | Hk].
+  - destruct (lookup_default_known v c Hconn Hk) as (h & -> & ->).
+    destruct (default_reply v c); reflexivity.
+  - rewrite lookup_default_unknown by exact Hk.
+    destruct (streqb (c_command c) CTCP_ACTION); [reflexivity|].
+    destruct (c_source c) as [name|]; [|reflexivity]. unfold source_id.
+    destruct (negb (c_reply c) && is_valid_nick (to_rfc1459 name)); [|reflexivity].
+    rewrite send_reply_ok by discriminate. reflexivity.
+Qed.
+
+(* ---- the reply discipline ----------------------------------------------- *)
+
+Lemma notice_not_privmsg : NOTICE <> PRIVMSG.
+Proof. discriminate. Qed.
+
+Lemma message_request e c : ctcp_message e c -> c_reply c = false -> ev_command e = PRIVMSG.
+Proof.
+  intros (Hk & _ & Hr & _) Hf. destruct Hk as [Hk | Hk]; [exact Hk|].
+  apply Hr in Hk. congruence.
+Qed.
+
+Lemma message_reply e c : ctcp_message e c -> c_reply c = true -> ev_command e = NOTICE.
+Proof. intros (_ & _ & Hr & _) Ht. apply Hr. exact Ht. Qed.
+
+Lemma message_source e c : ctcp_message e c -> c_source c = ev_source e.
+Proof. intros (_ & _ & _ & Hs). exact Hs. Qed.
+
+Theorem stage_total v e : connected v = true -> exists outs, ctcp_stage (default_table v) e = Ok outs.
+Proof.
+  intros Hconn. unfold ctcp_stage. destruct (decode_total e) as ([c|] & ->); cbn [rbind]; [|eauto].
+  rewrite ctcp_call_default by exact Hconn. unfold call_spec, default_reply.
+  destruct (known_query_dec _).
+  - destruct (c_reply c); [eauto|]. destruct (c_source c); eauto.
+  - destruct (streqb _ _); [eauto|]. destruct (c_source c); [|eauto]. destruct (_ && _); eauto.
+Qed.
+
+Theorem stage_answers v e outs : connected v = true ->
+  ctcp_stage (default_table v) e = Ok outs -> answers v e outs.
+Proof.
+  intros Hconn. unfold ctcp_stage. destruct (decode_total e) as ([c|] & Hd); rewrite Hd; cbn [rbind].
+  2:{ intros [= <-]. apply ans_silent. right. left. apply decode_none_iff. exact Hd. }
+  apply decode_exact in Hd. rename Hd into Hm.
+  pose proof (message_source _ _ Hm) as Hsrc.
+  rewrite ctcp_call_default by exact Hconn. unfold call_spec, default_reply.
+  destruct (known_query_dec (c_command c)) as [Hk | Hk].
+  - destruct (c_reply c) eqn:Hr.
+    { intros [= <-]. apply ans_silent. left. rewrite (message_reply _ _ Hm Hr). exact notice_not_privmsg. }
+    destruct (c_source c) as [name|] eqn:Hs.
+    + intros [= <-]. apply ans_known; auto. exact (message_request _ _ Hm Hr).
+    + intros [= <-]. apply ans_silent. auto.
+  - destruct (streqb (c_command c) CTCP_ACTION) eqn:Ha.
+    { intros [= <-]. apply ans_silent. apply streqb_spec in Ha.
+      destruct (ev_source e) as [name|] eqn:Hs; [|auto].
+      right. right. right. exists c, name. auto. }
+    apply streqb_false in Ha.
+    destruct (c_source c) as [name|] eqn:Hs.
+    2:{ intros [= <-]. apply ans_silent. auto. }
+    destruct (c_reply c) eqn:Hr; cbn [negb andb].
+    { intros [= <-]. apply ans_silent. left. rewrite (message_reply _ _ Hm Hr). exact notice_not_privmsg. }
+    destruct (is_valid_nick (to_rfc1459 name)) eqn:Hv.
+    + intros [= <-]. apply ans_unknown with (c := c); auto. exact (message_request _ _ Hm Hr).
+    + intros [= <-]. apply ans_silent. right. right. right. exists c, name. auto.
+Qed.
+
+Lemma answers_functional v e o1 o2 : answers v e o1 -> answers v e o2 -> o1 = o2.
+Proof.
+  assert (Hsil : forall c name, ev_command e = PRIVMSG -> ctcp_message e c -> ev_source e = Some name ->
+            (known_query (c_command c) \/
+             (c_command c <> CTCP_ACTION /\ is_valid_nick (to_rfc1459 name) = true)) ->
+            answers v e [] -> False).
+  { intros c name Hp Hm Hs Hor Ha. inversion Ha as [| | Hcase]. 
+    destruct Hcase as [H | [H | [H | (c' & name' & Hm' & Hs' & Hnk & Hcase)]]].
+    - exact (H Hp).
+    - apply H. exists c. exact Hm.
+    - congruence.
+    - rewrite (ctcp_message_functional _ _ _ Hm' Hm) in *.
+      assert (name' = name) by congruence. subst name'.
+      destruct Hor as [Hk | (Hna & Hv)]; [exact (Hnk Hk)|].
+      destruct Hcase as [Hc | Hc]; congruence. }
+  intros H1 H2.
+  destruct H1 as [c name Hp Hm Hs Hk | c name Hp Hm Hs Hnk Hna Hv | Hcase1];
+  inversion H2 as [c' name' Hp' Hm' Hs' Hk' | c' name' Hp' Hm' Hs' Hnk' Hna' Hv' | Hcase2]; subst;
+  try (rewrite (ctcp_message_functional _ _ _ Hm' Hm) in * );
+  try (assert (name' = name) by congruence; subst name').
+  - reflexivity.
+  - contradiction.
+  - exfalso. apply (Hsil c name); auto.
+  - contradiction.
+  - reflexivity.
+  - exfalso. apply (Hsil c name); auto.
+  - exfalso. apply (Hsil c' name'); auto. apply ans_silent. exact Hcase1.
+  - exfalso. apply (Hsil c' name'); auto. apply ans_silent. exact Hcase1.
+  - reflexivity.
+Qed.
+
+(* the CTCP stage with the default table writes exactly what the discipline allows *)
+Theorem stage_exact v e outs : connected v = true ->
+  (ctcp_stage (default_table v) e = Ok outs <-> answers v e outs).
+Proof.
+  intros Hconn. split; [apply stage_answers; exact Hconn|].
+  intros Ha. destruct (stage_total v e Hconn) as (outs' & Hs). rewrite Hs. f_equal.
+  apply (answers_functional v e); [|exact Ha]. apply stage_answers; assumption.
+Qed.
+
+(* ---- connected or not: the only panic is FINGER on a client without connection ---- *)
+
+Lemma finger_crash_unknown v c : ~ known_query (c_command c) -> finger_crash v c = false.
+Proof.
+  intros Hk. unfold finger_crash. destruct (streqb (c_command c) CTCP_FINGER) eqn:E.
+  - apply streqb_spec in E. exfalso. apply Hk. rewrite E. unfold known_query. cbn [In]. tauto.
+  - rewrite andb_false_r. reflexivity.
+Qed.
+
+Lemma ctcp_call_default_gen v c :
+  ctcp_call (default_table v) c = if finger_crash v c then Panic else call_spec v c.
+Proof.
+  unfold ctcp_call, call_spec. rewrite lookup_wildcard_default. cbn [rbind].
+  destruct (known_query_dec (c_command c)) as [Hk | Hk].
+  - destruct (lookup_default_known_gen v c Hk) as (h & -> & ->).
+    destruct (finger_crash v c); [reflexivity|]. destruct (default_reply v c); reflexivity.
+  - rewrite finger_crash_unknown by exact Hk.
+    rewrite lookup_default_unknown by exact Hk.
+    destruct (streqb (c_command c) CTCP_ACTION); [reflexivity|].
+    destruct (c_source c) as [name|]; [|reflexivity]. unfold source_id.
+    destruct (negb (c_reply c) && is_valid_nick (to_rfc1459 name)); [|reflexivity].
+    rewrite send_reply_ok by discriminate. reflexivity.
+Qed.
+
+Lemma call_spec_total v c : exists outs, call_spec v c = Ok outs.
+Proof.
+  unfold call_spec, default_reply. destruct (known_query_dec _).
+  - destruct (c_reply c); [eauto|]. destruct (c_source c); eauto.
+  - destruct (streqb _ _); [eauto|]. destruct (c_source c); [|eauto]. destruct (_ && _); eauto.
+Qed.
+
+Theorem stage_panic_iff v e :
+  ctcp_stage (default_table v) e = Panic <->
+  connected v = false /\ ev_command e = PRIVMSG /\
+  exists c name, ctcp_message e c /\ c_command c = CTCP_FINGER /\ ev_source e = Some name.
+Proof.
+  unfold ctcp_stage. destruct (decode_total e) as ([c|] & Hd); rewrite Hd; cbn [rbind].
+  2:{ split; [discriminate|]. intros (_ & _ & c & name & Hm & _). apply decode_exact in Hm. congruence. }
+  apply decode_exact in Hd. rewrite ctcp_call_default_gen.
+  destruct (finger_crash v c) eqn:Hf.
+  - split; [intros _|reflexivity]. unfold finger_crash in Hf.
+    apply andb_true_iff in Hf. destruct Hf as (Hf & Hs).
+    apply andb_true_iff in Hf. destruct Hf as (Hf & Hr).
+    apply andb_true_iff in Hf. destruct Hf as (Hc & Hk).
+    apply negb_true_iff in Hc, Hr. apply streqb_spec in Hk.
+    split; [exact Hc|]. split; [exact (message_request _ _ Hd Hr)|].
+    destruct (c_source c) as [name|] eqn:Hsrc; [|discriminate].
+    exists c, name. rewrite <- (message_source _ _ Hd). auto.
+  - destruct (call_spec_total v c) as (outs & ->). split; [discriminate|].
+    intros (Hc & Hp & c' & name & Hm & Hk & Hs). exfalso.
+    rewrite (ctcp_message_functional _ _ _ Hm Hd) in *.
+    unfold finger_crash in Hf. rewrite Hc, Hk, (message_source _ _ Hd), Hs in Hf.
+    destruct (c_reply c) eqn:Hr; [|discriminate Hf].
+    rewrite (message_reply _ _ Hd Hr) in Hp. discriminate Hp.
+Qed.
+
+(* a NOTICE never elicits anything, connected or not, whatever the environment *)
+Theorem notice_silent v e : ev_command e = NOTICE -> ctcp_stage (default_table v) e = Ok [].
+Proof.
+  intros Hn. unfold ctcp_stage. destruct (decode_total e) as ([c|] & Hd); rewrite Hd; cbn [rbind]; [|reflexivity].
+  apply decode_exact in Hd. destruct Hd as (_ & _ & Hr & _). apply Hr in Hn.
+  rewrite ctcp_call_default_gen. unfold finger_crash, call_spec, default_reply. rewrite Hn.
+  cbn [negb andb]. rewrite andb_false_r. cbn [andb].
+  destruct (known_query_dec _); [reflexivity|].
+  destruct (streqb _ _); [reflexivity|]. destruct (c_source c); reflexivity.
+Qed.
+
+(* the readable form of the discipline *)
+Theorem stage_discipline v e outs : connected v = true ->
+  ctcp_stage (default_table v) e = Ok outs ->
+  (length outs <= 1)%nat /\
+  forall o, In o outs ->
+    ev_command e = PRIVMSG /\
+    exists c name, decode_ctcp e = Ok (Some c) /\ ev_source e = Some name /\
+      c_command c <> CTCP_ACTION /\
+      (known_query (c_command c) \/ is_valid_nick (to_rfc1459 name) = true) /\
+      is_answer_to name o.
+Proof.
+  intros Hconn Hs. apply stage_answers in Hs; [|exact Hconn].
+  destruct Hs as [c name Hp Hm Hsrc Hk | c name Hp Hm Hsrc Hnk Hna Hv | _].
+  - split; [cbn; lia|]. intros o [<- | []]. split; [exact Hp|].
+    exists c, name. split; [apply decode_exact; exact Hm|]. split; [exact Hsrc|].
+    split; [intros Ha; rewrite Ha in Hk; exact (action_unknown Hk)|]. split; [auto|].
+    assert (Htag : ctcp_tag (c_command c)) by (destruct Hm as (_ & (t & p & _ & Ht & _) & _); exact Ht).
+    unfold is_answer_to, notice. cbn [ev_command ev_source ev_params].
+    split; [reflexivity|]. split; [reflexivity|].
+    eexists _, _. split; [exact Htag|]. split; [reflexivity|]. apply encode_payload. exact Htag.
+  - split; [cbn; lia|]. intros o [<- | []]. split; [exact Hp|].
+    exists c, name. split; [apply decode_exact; exact Hm|]. split; [exact Hsrc|].
+    split; [exact Hna|]. split; [auto|].
+    assert (Htag : ctcp_tag CTCP_ERRMSG).
+    { split; [discriminate|]. apply forallb_tag. reflexivity. }
+    unfold is_answer_to, notice. cbn [ev_command ev_source ev_params].
+    split; [reflexivity|]. split; [reflexivity|].
+    eexists _, _. split; [exact Htag|]. split; [reflexivity|]. apply encode_payload. exact Htag.
+  - split; [cbn; lia|]. intros o [].
+Qed.
+
+(* no reply loop: whatever the stage writes, and whoever it comes back from (the peer sees
+   it with our nickname as source; a server may hand it back as an echo), a client running
+   the default table - in any environment, connected or not - answers nothing to it *)
+Theorem no_loop v e outs o : connected v = true ->
+  ctcp_stage (default_table v) e = Ok outs -> In o outs ->
+  forall v' src params, ctcp_stage (default_table v') (mk_event src (ev_command o) params) = Ok [].
+Proof.
+  intros Hconn Hs Ho v' src params.
+  destruct (stage_discipline v e outs Hconn Hs) as (_ & Hd).
+  destruct (Hd o Ho) as (_ & c & name & _ & _ & _ & _ & (Hn & _)).
+  apply notice_silent. exact Hn.
+Qed.
+
+(* non-vacuity *)
+Definition ex_env (conn : bool) : env :=
+  mk_env [] (bs "Real") (bs "go1") (bs "linux") (bs "amd64") (bs "now") (bs "1s") conn.
+
+Example stage_answers_version :
+  ctcp_stage (default_table (ex_env true))
+    (mk_event (Some (bs "Nick[x]")) PRIVMSG [bs "me"; [1] ++ bs "VERSION" ++ [1]])
+  = Ok [notice (bs "nick{x}") ([1] ++ bs "VERSION girc (github.com/lrstanley/girc) using go1 (linux, amd64)" ++ [1])].
+Proof. vm_compute. reflexivity. Qed.
+
+Example stage_answers_unknown :
+  ctcp_stage (default_table (ex_env true))
+    (mk_event (Some (bs "nick")) PRIVMSG [bs "#chan"; [1] ++ bs "FOO bar" ++ [1]])
+  = Ok [notice (bs "nick") ([1] ++ bs "ERRMSG that is an unknown CTCP query" ++ [1])].
+Proof. vm_compute. reflexivity. Qed.
+
+Example stage_silent_action :
+  ctcp_stage (default_table (ex_env true))
+    (mk_event (Some (bs "nick")) PRIVMSG [bs "#chan"; [1] ++ bs "ACTION waves" ++ [1]]) = Ok [].
+Proof. vm_compute. reflexivity. Qed.
+
+Example stage_silent_server_unknown :
+  ctcp_stage (default_table (ex_env true))
+    (mk_event (Some (bs "irc.server.net")) PRIVMSG [bs "me"; [1] ++ bs "FOO" ++ [1]]) = Ok [].
+Proof. vm_compute. reflexivity. Qed.
+
+Example finger_disconnected_panics :
+  ctcp_stage (default_table (ex_env false))
+    (mk_event (Some (bs "nick")) PRIVMSG [bs "me"; [1] ++ bs "FINGER" ++ [1]]) = Panic.
+Proof. vm_compute. reflexivity. Qed.
+
+Example not_ctcp_sat :
+  not_ctcp_cause (mk_event None PRIVMSG [bs "me"; [1] ++ bs "ping" ++ [1]]).
+Proof.
+  apply (nc_bad_tag _ (bs "me") (bs "ping") [] 112).
+  - left. reflexivity.
+  - cbn. intuition discriminate.
+  - cbn. auto.
+  - unfold tag_byte. lia.
+Qed.
